@@ -100,6 +100,7 @@ func alphabet(backend string) []Op {
 		{K: "Create", Key: "b", Val: 3, Exp: 2},
 		{K: "PutMany", Keys: []string{"a", "b"}, Val: 2, Exp: 1},
 		{K: "PutMany", Keys: []string{"a"}, Val: 3},
+		{K: "PutMany", Keys: []string{"a", "b", "a"}, Val: 1, Exps: []int{0, 2, 1}},
 		{K: "Cas", Key: "a", Val: 3, Ver: "cur", Exp: 1},
 		{K: "Cas", Key: "a", Val: 2, Ver: "cur"},
 		{K: "Cas", Key: "a", Val: 2, Ver: "bogus"},
@@ -128,6 +129,7 @@ func matrix(backend string) []kase {
 		{{K: "Put", Key: "a", Val: 2, Exp: 1}},
 		{{K: "Create", Key: "a", Val: 2, Exp: 1}},
 		{{K: "PutMany", Keys: []string{"a", "b"}, Val: 2, Exp: 1}},
+		{{K: "PutMany", Keys: []string{"a", "b", "a"}, Val: 2, Exps: []int{0, 3, 1}}},
 		{{K: "Put", Key: "a", Val: 1}, {K: "Cas", Key: "a", Val: 2, Ver: "cur", Exp: 1}},
 		{{K: "Put", Key: "a", Val: 1}, {K: "Put", Key: "a", Val: 3, Exp: 2}, {K: "Advance", N: 1}},
 	}
@@ -206,7 +208,7 @@ func TestCheck(t *testing.T) {
 		run.Note("first_touch_of_an_expired_key_by_operation", sh.firstTouch)
 		run.Finish(t)
 	})
-	run.Rule("(i) first-toucher matrix: 5 ways to write a short-lived record x 4 unrelated interludes x 3 clock advances x 17 first touchers x 9 second touchers; (ii) waiter parked while the record is alive, clock advanced past the expiry; (iii)/(iv) every sequence over 22-23 operation instances (writes with short/long/no/past expiry on 2 keys, all readers, Advance 1/3/2000 units) to the depth bound plus seeded random sequences; each followed by a full observation (Get, GetMany, ListKeys, Create). Compared call by call with the contract model with a logical clock. distinct = distinct logical store states (presence, value, remaining lifetime, last write) reached")
+	run.Rule("(i) first-toucher matrix: 6 ways to write a short-lived record x 4 unrelated interludes x 3 clock advances x 17 first touchers x 9 second touchers; (ii) waiter parked while the record is alive, clock advanced past the expiry; (iii)/(iv) every sequence over 23-24 operation instances (writes with short/long/no/past expiry on 2 keys, all readers, Advance 1/3/2000 units) to the depth bound plus seeded random sequences; each followed by a full observation (Get, GetMany, ListKeys, Create). Compared call by call with the contract model with a logical clock. distinct = distinct logical store states (presence, value, remaining lifetime, last write) reached")
 	run.Assume("expirations lie at half clock units and the clock moves in whole units, so the exact expiry instant is never sampled")
 	run.Assume("inmem: testing/synctest virtual clock; Redis: miniredis, whose clock is the sum of FastForward calls")
 
@@ -386,6 +388,9 @@ func randomCase(backend string, seed int64, i int) kase {
 			o = Op{K: "Put", Key: key(), Val: rng.Intn(4), Exp: exp()}
 		case x < 45:
 			o = Op{K: "PutMany", Keys: []string{key(), key()}, Val: rng.Intn(4), Exp: exp()}
+			if rng.Intn(2) == 0 {
+				o.Exps = []int{exp(), exp()}
+			}
 		case x < 57:
 			o = Op{K: "Cas", Key: key(), Val: rng.Intn(4), Exp: exp(), Ver: []string{"cur", "cur", "stale", "bogus"}[rng.Intn(4)]}
 		case x < 64:
